@@ -266,6 +266,18 @@ def run(P, tier="quick"):
     if imp is None:
         raise AnalysisBroken("R86: no switch on the libyaml node type reachable from _vnaproperty_yaml_import")
 
+    def keykind_early(v):
+        """is the local a map key (result of vnaproperty_quote_key)?  such a call writes a key, not a scalar value"""
+        for m in exp.walk():
+            rhs = None
+            if m.k == "BinaryOperator" and m.op == "=" and m.kids[0].strip().k == "DeclRefExpr" and m.kids[0].strip().refdecl == v.refdecl:
+                rhs = m.kids[1].strip()
+            elif m.k == "VarDecl" and m.get("decl") == v.refdecl and m.kids and m.kids[0] is not None:
+                rhs = m.kids[0].strip()
+            if rhs is not None and rhs.k == "CallExpr" and rhs.callee == "vnaproperty_quote_key":
+                return True
+        return False
+
     try:
         # ---- importer's null decision: an if whose condition reads ...scalar.value and whose branch stores nothing
         nulls = []
@@ -300,23 +312,41 @@ def run(P, tier="quick"):
         if not L_imp:
             raise AnalysisBroken("R86: the importer's null test accepts none of its own literals %r as a plain scalar" % cands)
 
-        # ---- exporter's two scalar emitters
+        # ---- exporter's two scalar emitters: yaml_document_add_scalar itself, or a helper of the same file that hands two of
+        # its own parameters on as the text and the style (a maintainer may well wrap the call and its error report)
+        def emitter_sig(c):
+            if c.callee == "yaml_document_add_scalar" and len(c.args()) >= 5:
+                return (2, 4)
+            g = P.resolve_call(c, exp)
+            if g is None or g.body is None or g.file != exp.file or g.name == exp.name:
+                return None
+            for ic in g.calls("yaml_document_add_scalar"):
+                a = ic.args()
+                if len(a) >= 5 and a[2].strip().k == "DeclRefExpr" and a[4].strip().k == "DeclRefExpr":
+                    pv = [i for i, p_ in enumerate(g.params) if p_["decl"] == a[2].strip().refdecl]
+                    ps = [i for i, p_ in enumerate(g.params) if p_["decl"] == a[4].strip().refdecl]
+                    if pv and ps and max(pv[0], ps[0]) < len(c.args()):
+                        return (pv[0], ps[0])
+            return None
         null_call = scalar_call = None
         value_decl = None
-        for c in exp.calls("yaml_document_add_scalar"):
-            a = c.args()
-            if len(a) < 5:
+        for c in exp.calls():
+            sig = emitter_sig(c)
+            if sig is None:
                 continue
-            v = a[2].strip()
+            a = c.args()
+            v = a[sig[0]].strip()
             if v.k == "DeclRefExpr" and v.refkind in ("local", "staticlocal"):
                 init = [d for d in exp.walk() if d.k == "VarDecl" and d.get("decl") == v.refdecl]
                 if init and init[0].kids and init[0].kids[0].strip().k == "StringLiteral" and not _assigns(exp.body, v.refdecl):
-                    null_call = (c, init[0].kids[0].strip().val, a[4])
+                    null_call = (c, init[0].kids[0].strip().val, a[sig[1]])
                     continue
-                scalar_call = (c, a[4])
+                if keykind_early(v):
+                    continue
+                scalar_call = (c, a[sig[1]])
                 value_decl = v.refdecl
             elif v.k == "StringLiteral":
-                null_call = (c, v.val, a[4])
+                null_call = (c, v.val, a[sig[1]])
         if null_call is None or scalar_call is None:
             raise AnalysisBroken("R86: the exporter's null and string yaml_document_add_scalar calls were not both found")
 
@@ -459,7 +489,21 @@ def run(P, tier="quick"):
         R.ok("R86|vnaproperty.c|%s|kind-export:NULL" % exp.name, PROPS)
     isw = [n for n in imp.walk() if n.k == "SwitchStmt" and n.kids[0].strip().k == "MemberExpr" and n.kids[0].strip().member == "type"][0]
     icases = _cases(isw)
-    made = sorted({NODE_OF_ADDER[c.callee] for c in exp.calls() if c.callee in NODE_OF_ADDER})
+    made = set()
+    seen_f, work_f = set(), [exp]
+    while work_f:
+        g = work_f.pop()
+        if g.key() in seen_f or g.body is None:
+            continue
+        seen_f.add(g.key())
+        for c in g.calls():
+            if c.callee in NODE_OF_ADDER:
+                made.add(NODE_OF_ADDER[c.callee])
+            else:
+                h = P.resolve_call(c, g)
+                if h is not None and h.file == exp.file and len(seen_f) < 12:
+                    work_f.append(h)
+    made = sorted(made)
     if len(made) < 3:
         raise AnalysisBroken("R86: the exporter creates fewer than three libyaml node types")
     for v in made:
